@@ -95,6 +95,25 @@ Theorem c09_void_oracle_accepts_model : forall ops, vq_oracle ops (vq_run ops) =
 Proof. exact vq_oracle_accepts_model. Qed.
 Print Assumptions c09_void_oracle_accepts_model.
 
+(* callback consumers (call_fn_future_awaiter whose completion callback asks for the next item from inside the callback):
+   because the promise is resolved after the critical section, the nested pop() is an ordinary pop; every such history
+   reaches a state that a plain history with the same pushes reaches, so conservation and order carry over *)
+Theorem c09_callback_reaches_plain_state : forall l, c_no_destroy l ->
+  exists ops, cbase (cq_final l) = q_final ops /\ no_destroy ops /\ pushed_vals ops = c_pushed_vals l.
+Proof. exact cq_reaches_plain_state. Qed.
+Print Assumptions c09_callback_reaches_plain_state.
+
+Theorem c09_callback_conservation_order : forall l, c_no_destroy l ->
+  c_pushed_vals l = delivered (futs (cbase (cq_final l))) ++ items (cbase (cq_final l)) /\
+  (items (cbase (cq_final l)) = [] \/ waiters (cbase (cq_final l)) = []).
+Proof. exact cq_conservation_order. Qed.
+Print Assumptions c09_callback_conservation_order.
+
+Example c09_callback_nonvacuous :
+  let l := [COp (QPush 11); CPopCb 3; COp (QPush 12); COp (QPush 13); COp (QUnblockPop 7); COp (QPush 14)] in
+  futs (cbase (cq_final l)) = [FValue 11; FValue 12; FValue 13; FExc 7] /\ items (cbase (cq_final l)) = [14].
+Proof. vm_compute. split; reflexivity. Qed.
+
 (* ---- interleaving model (queue<T>): ANY number of producer / consumer / unblock_pop / unblock_push / size threads and a destroyer thread, ANY schedule of ANY length.
    A push or pop is a critical section followed, after the unlock, by a separate step that resolves the promise taken
    inside (QueueDefs.tstep).  In every reachable state the items pushed so far (every producer's first k values, tagged
